@@ -25,7 +25,9 @@ SEEDS = [
     "def f():\n    \"\"\"doc\"\"\"\n    return\n", "x = 1 # comment\n# another\n", "x = (1 +\n     2)\n", "x = 1 + \\\n    2\n",
     "pass; pass\n", "x = [\n  1,\n  2,\n]\n", "def f():\n  def g():\n    return 1\n  return g\n", "x = a.b = 1\n",
     "x = ...\n", "x = lambda: (yield)\n", "f(*a, *b)\n", "x = 1 if 2 else 3 if 4 else 5\n", "x = [a for b in c for d in e if f if g]\n",
-    "x = typing.Callable[[int], str]\n", "x = int | None\n", "return 1\n", "x = \"\u00e9\U0001F600\"\n", "\tx = 1\n", "x = 1\r\ny = 2\r\n",
+    "x = typing.Callable[[int], str]\n", "x = 1\n# starlark-lint-disable unused\n", "x = 1\n# starlark-lint-disable unused",
+    "# starlark-lint-disable a, b\nx = 1 # starlark-lint-disable c", "def f():\n    # starlark-lint-disable x\n    pass # c\n#", "#", "# \u00e9", "#\n#\n", "x = '\\1\u00e9\\12\\123\u00e9'\n",
+    "x = b'\\7\u00e9'\n", "x = f'{a}\\1\u00e9{{}}'\n", "f'}'", "f'{'", "x = f'{\u00e9}'\n", "x = int | None\n", "return 1\n", "x = \"\u00e9\U0001F600\"\n", "\tx = 1\n", "x = 1\r\ny = 2\r\n",
 ]
 
 
